@@ -262,7 +262,25 @@ class Gen:
         elif kind == 2:
             sym = sympy.Symbol(key)
             v = self.t.draw(maxval, "cond-val")
-            cond = cirq.SympyCondition([sympy.Eq(sym, v), sym >= v, sym < max(1, v), sympy.Ne(sym, v)][self.t.draw(4, "rel")])
+            form = self.t.weighted([4, 2, 3], "sympy-form")
+            others = [k for k in sorted(self.key_dims) if k != key and ":" not in k]
+            if form == 1 and others:
+                # an expression over two keys
+                k2 = self._pick(others, "ckey2")
+                sym2 = sympy.Symbol(k2)
+                cond = cirq.SympyCondition([sym + sym2 >= max(1, v), sym > sym2, sympy.Eq(sym, sym2),
+                                            sym * 2 + sym2 < 3][self.t.draw(4, "rel2")])
+                self.features.add("sympy-two-keys")
+            elif form == 2 and all(d == 2 for d in dims):
+                # bitwise condition on individual (big-endian) bits of the record
+                ibase = sympy.IndexedBase(key)
+                i = self.t.draw(len(dims), "bit-i")
+                j = self.t.draw(len(dims), "bit-j")
+                forms = [ibase[i]] + ([sympy.Xor(ibase[i], ibase[j])] if i != j else [])
+                cond = cirq.SympyCondition(forms[self.t.draw(len(forms), "bit-form")])
+                self.features.add("sympy-indexed-bits")
+            else:
+                cond = cirq.SympyCondition([sympy.Eq(sym, v), sym >= v, sym < max(1, v), sympy.Ne(sym, v)][self.t.draw(4, "rel")])
             self.features.add("sympy-condition")
         else:
             tv = self.t.draw(maxval, "bm-target")
